@@ -124,12 +124,16 @@ def netcdf_flatten(
 
 
 def parse_attribute(name, attribute):
-    """Parse variable attribute of any form into a dict:
+    """Parse variable attribute of any form into a list of pairs:
 
-     * 'time' -> {'time': []}
-     * 'lat lon' -> {'lat': [], 'lon': []}
-     * 'area: time volume: lat lon' -> {'area': ['time'], 'volume':
-       ['lat', 'lon']}
+     * 'time' -> [('time', None)]
+     * 'lat lon' -> [('lat', None), ('lon', None)]
+     * 'area: time volume: lat lon' -> [('area', ['time']),
+       ('volume', ['lat', 'lon'])]
+
+    The pairs are in the order of the attribute, and a name may occur
+    more than once (e.g. the cell methods 'lat: lon: maximum lon: lat:
+    mean').
 
     .. versionadded:: (cfdm) NEXTVERSION
 
@@ -143,8 +147,8 @@ def parse_attribute(name, attribute):
 
     :Returns:
 
-        `dict`
-            The parsed string.
+        `list`
+            The parsed string, as a list of ``(name, values)`` pairs.
 
     """
 
@@ -175,9 +179,9 @@ def parse_attribute(name, attribute):
 
     m = re.match(pat_all, attribute)
 
-    # Output is always a dict. If input form is a list, dict values
-    # are set as empty lists
-    out = {}
+    # Output is always a list of (name, values) pairs. If input form
+    # is a list, the values are `None`
+    out = []
 
     if m is not None:
         list_match = m.group("list")
@@ -185,7 +189,7 @@ def parse_attribute(name, attribute):
         if list_match:
             for mapping in re.finditer(pat_list_item, list_match):
                 item = mapping.group("list_item")
-                out[item] = None
+                out.append((item, None))
 
         # Parse as a dict:
         else:
@@ -198,7 +202,7 @@ def parse_attribute(name, attribute):
                         pat_value, mapping.group("values")
                     )
                 ]
-                out[term] = values
+                out.append((term, values))
     else:
         raise AttributeParsingException(
             f"Error parsing {name!r} attribute with value {attribute!r}"
@@ -214,8 +218,9 @@ def generate_var_attr_str(d):
 
     :Parameters:
 
-        d: `dict`
-            A resolved and parsed attribute.
+        d: `list`
+            A resolved and parsed attribute, as a list of ``(name,
+            values)`` pairs.
 
     :Returns:
 
@@ -224,7 +229,7 @@ def generate_var_attr_str(d):
 
     """
     parsed_list = []
-    for k, v in d.items():
+    for k, v in d:
         if v is None:
             parsed_list.append(k)
         elif not v:
@@ -1414,20 +1419,20 @@ class _Flattener:
 
             # Resolved references in parsed as required by attribute
             # properties
-            resolved_parsed_attr = {}
+            resolved_parsed_attr = []
 
             rules = flattening_rules[name]
             resolve_key = rules.resolve_key
             resolve_value = rules.resolve_value
 
-            for k, v in parsed_attribute.items():
+            for k, v in parsed_attribute:
                 if resolve_key:
                     k = self.resolve_reference(k, old_var, rules)
 
                 if resolve_value and v is not None:
                     v = [self.resolve_reference(x, old_var, rules) for x in v]
 
-                resolved_parsed_attr[k] = v
+                resolved_parsed_attr.append((k, v))
 
             # Re-generate attribute value string with resolved
             # references
@@ -1468,20 +1473,20 @@ class _Flattener:
                 # Leave an attribute that can not be parsed as it is
                 continue
 
-            adapted_parsed_attr = {}
+            adapted_parsed_attr = []
 
             rules = flattening_rules[name]
             resolve_key = rules.resolve_key
             resolve_value = rules.resolve_value
 
-            for k, v in parsed_attribute.items():
+            for k, v in parsed_attribute:
                 if resolve_key:
                     k = self.adapt_name(k, rules)
 
                 if resolve_value and v is not None:
                     v = [self.adapt_name(x, rules) for x in v]
 
-                adapted_parsed_attr[k] = v
+                adapted_parsed_attr.append((k, v))
 
             new_attr_value = generate_var_attr_str(adapted_parsed_attr)
             var.setncattr(name, new_attr_value)
